@@ -129,8 +129,9 @@ def specs():
     return out
 
 
-def run_spec(w, spec):
-    exports = [("a", Val("A")), ("b", Val("B")), ("c", Val("C"))]
+def run_spec(w, spec, order=(0, 1, 2)):
+    exports0 = [("a", Val("A")), ("b", Val("B")), ("c", Val("C"))]
+    exports = [exports0[i] for i in order]       # the order in which the library's (hash) table happens to yield its exports
     lib = Val("library-name")
     libtok = Val("library")
     selfv = fresh_fields(w.fb)
@@ -381,6 +382,46 @@ def rule_declarations(ctx, rule):
             ctx.report(rule, key, "(import %s) over a library exporting a b c defines %s; the union of the import sets is %s" % (
                 label, sorted((n, repr(v)) for n, v in d["got"].items()) if getattr(d["result"], "name", None) == "Ok" else repr(d["result"]),
                 sorted((n, repr(v)) for n, v in d["want"].items())), where_of(f))
+    return decided
+
+
+def rule_order_independent(ctx, rule):
+    """the bindings an import set yields do not depend on the order in which the library's export table is iterated (a hash table:
+    the order differs from run to run): every operator with two or more identifiers, under all six orders of three exports"""
+    fb = ctx.fb()
+    from .ctx import where_of
+    w = World(fb)
+    base = ("lib",)
+    specs_ = [("except", base, ["a", "b", "c"]), ("except", base, ["a", "b"]), ("except", base, ["c", "a"]), ("only", base, ["a", "c"]),
+              ("only", base, ["c", "b", "a"]), ("rename", base, [("a", "x"), ("c", "y")]), ("prefix", base, "p-"),
+              ("except", ("prefix", base, "p-"), ["p-a", "p-c"]), ("only", ("except", base, ["b"]), ["a", "c"])]
+    decided = 0
+    for spec in specs_:
+        label = show(spec)
+        outcomes, und = {}, None
+        for order in itertools.permutations(range(3)):
+            d = run_spec(w, spec, order)
+            if "stuck" in d:
+                und = d["stuck"]
+                break
+            if d["pairs"] is None:
+                outcomes.setdefault(("not-a-binding-list",), []).append(order)
+                continue
+            outcomes.setdefault(tuple(sorted((n, getattr(v, "tag", repr(v))) for n, v in d["pairs"])), []).append(order)
+            want = tuple(sorted((n, getattr(v, "tag", repr(v))) for n, v in d["want"]))
+        key = "order/%s" % label
+        if und:
+            ctx.undecided(rule, key, "cannot follow eval_import_set (%s)" % und, where_of(w.f))
+            continue
+        decided += 1
+        good = len(outcomes) == 1 and want in outcomes
+        ctx.inst(rule, key, {"export_orders": 6, "distinct_outcomes": len(outcomes)})
+        ctx.oblige(good)
+        if not good:
+            names = {k_: sorted(n for n, _ in k_) if k_ and k_[0] != "not-a-binding-list" else k_ for k_ in outcomes}
+            ctx.report(rule, key, "%s yields %s depending on the order in which the library's export table is iterated (orders %s); the "
+                       "import-set algebra gives %s whatever the order — the outcome differs from run to run" % (
+                           label, [names[k_] for k_ in outcomes], [outcomes[k_][0] for k_ in outcomes], sorted(n for n, _ in want)), where_of(w.f))
     return decided
 
 
